@@ -10,6 +10,7 @@ import (
 	"crypto"
 	"crypto/aes"
 	"crypto/cipher"
+	"crypto/ecdsa"
 	"crypto/rsa"
 	"crypto/sha1"
 	"crypto/sha256"
@@ -30,6 +31,7 @@ import (
 	"github.com/russellhaering/goxmldsig/etreeutils"
 
 	"verifharness/internal/emit"
+	"verifharness/internal/fix"
 )
 
 type mAttrValue struct{ Type, Value string }
@@ -240,6 +242,8 @@ func parseAssertionEl(el *etree.Element, problems *[]string) mAssertion {
 var hashByMethod = map[string]crypto.Hash{
 	dsig.RSASHA1SignatureMethod: crypto.SHA1, dsig.RSASHA256SignatureMethod: crypto.SHA256,
 	dsig.RSASHA384SignatureMethod: crypto.SHA384, dsig.RSASHA512SignatureMethod: crypto.SHA512,
+	dsig.ECDSASHA1SignatureMethod: crypto.SHA1, dsig.ECDSASHA256SignatureMethod: crypto.SHA256,
+	dsig.ECDSASHA384SignatureMethod: crypto.SHA384, dsig.ECDSASHA512SignatureMethod: crypto.SHA512,
 }
 var hashByDigest = map[string]func() hash.Hash{
 	"http://www.w3.org/2000/09/xmldsig#sha1": sha1.New, "http://www.w3.org/2001/04/xmlenc#sha256": sha256.New,
@@ -353,9 +357,16 @@ func verifyEnveloped(el *etree.Element) mSig {
 		return s
 	}
 	if digestOK {
-		for id := int64(1); id <= 3; id++ {
-			if rsa.VerifyPKCS1v15(&keyOf(id).PublicKey, hh, sum, sv) == nil {
-				s.Signer = id
+		if strings.Contains(s.Method, "#ecdsa-") {
+			// goxmldsig hands the crypto.Signer's output through unchanged: ASN.1 DER for an ECDSA key
+			if ecdsa.VerifyASN1(&fix.ECKey("ec_256").PublicKey, sum, sv) {
+				s.Signer = ecSignerID
+			}
+		} else {
+			for id := int64(1); id <= 3; id++ {
+				if rsa.VerifyPKCS1v15(&keyOf(id).PublicKey, hh, sum, sv) == nil {
+					s.Signer = id
+				}
 			}
 		}
 		if s.Signer == 0 {
